@@ -34,7 +34,7 @@ func c06Oracle(ec *epCase) *Failure {
 	wild := exprUses(ec.p.E, func(x *Expr) bool { return x.K == KAnyKey || x.K == KAny })
 	kv := exprUses(ec.p.E, func(x *Expr) bool { return x.K == KMethod && x.S == "keyvalue" })
 	unordered := wild && (multiMember(ec.doc) || usesVar(ec.p.E) || kv)
-	if unordered && (ec.verbose.q.Class != "ok" || ec.silent.q.Class != "ok" || ec.verbose.e.Class != "ok") {
+	if unordered && (ec.verbose.q.Class != "ok" || ec.silent.q.Class != "ok" || ec.verbose.e.Class != "ok" || c06OrderSensitive(ec)) {
 		for _, x := range []Out{ec.verbose.q, ec.verbose.f, ec.verbose.e, ec.verbose.m, ec.verbose.x, ec.silent.q, ec.silent.f, ec.silent.e, ec.silent.m, ec.silent.x} {
 			if x.Class == "panic" {
 				return &Failure{Sig: "C06/panic/" + mode, Expected: "no panic", Observed: x.String()}
@@ -165,6 +165,33 @@ func c06Oracle(ec *epCase) *Failure {
 }
 
 // c06Known: is the failure exactly what the reference predicts once a recorded defect is emulated?
+// c06OrderSensitive: does the outcome of the complete evaluation depend on the order in which wildcards
+// visit object members (a failure absorbed into a value, e.g. exists() over one convertible and one
+// failing member)? Decided by the reference model under every member order; a declined reference
+// counts as sensitive. Two executions of such a case may legitimately differ.
+func c06OrderSensitive(ec *epCase) bool {
+	var first string
+	perms := 1
+	for perm := 0; perm < perms; perm++ {
+		rc := newRefCtx(ec.p.Strict, ec.doc, map[string]any(ec.cfg.vars), ec.c.TZ, zoneOf(ec.c.Zone))
+		rc.keyPerm = perm
+		ro := refQuery(ec.p, rc)
+		if ro.declined != "" {
+			return true
+		}
+		s := ro.class() + " " + canonMultiset(ro.items)
+		if perm == 0 {
+			first = s
+			for i := 2; i <= ro.maxObj && i <= 4; i++ {
+				perms *= i
+			}
+		} else if s != first {
+			return true
+		}
+	}
+	return false
+}
+
 func c06Known(ec *epCase, f *Failure) *Failure {
 	for _, q := range refQuirks {
 		okAll := true
@@ -200,7 +227,7 @@ func c06Known(ec *epCase, f *Failure) *Failure {
 func checkC06(c Case) *Failure { return c06Oracle(epReplay(c)) }
 
 func runC06(r *Run) {
-	r.Rule("every path of the full language with <= 3 nodes, every construct nested in filters/subscripts, and every chain of <= L steps over an alphabet with one failing (soft and hard) and one succeeding variant of each step kind plus operators over failing/succeeding operands, x both modes x 57 documents (all with <= 2 nodes, datetime/numeric strings, arrays with the offending element at each position) x {float64,json.Number} x {WithTZ} ; all five entry points, verbose and silent, on identical inputs; oracle = relations between the real executions: First = Query[0]/nil with the same error; Query ok => Exists = non-empty; no items => Exists not true; strict: Exists never hides Query's error; Match = sole boolean / NULL / single-boolean-expected; ExistsOrMatch dispatches on IsPredicate; non-trivial = Query yields items or an error")
+	r.Rule("every path of the full language with <= N nodes (3 quick, 4 thorough), every construct nested in filters/subscripts, and every chain of <= L steps over an alphabet with one failing (soft and hard) and one succeeding variant of each step kind plus operators over failing/succeeding operands, x both modes x 65 documents (all with <= 2 nodes, datetime/numeric strings, arrays with the offending element at each position) x {float64,json.Number} x {WithTZ} ; all five entry points, verbose and silent, on identical inputs; oracle = relations between the real executions: First = Query[0]/nil with the same error; Query ok => Exists = non-empty; no items => Exists not true; strict: Exists never hides Query's error; Match = sole boolean / NULL / single-boolean-expected; ExistsOrMatch dispatches on IsPredicate; non-trivial = Query yields items or an error")
 	paths := epPaths(r)
 	docs := epDocs()
 	r.Bound("paths", len(paths))
